@@ -18,7 +18,7 @@ from ..inline import flatten
 from ..solver_model import Sweep, solver_function, iter_partition, eval_calls, series_mutation, is_series_append
 from ..cfg import handler_types, raised_name, exc_is_a
 
-TECHNIQUE = ('static analysis on flattened functions: linear-form normalisation of all horizon bounds with temporaries resolved, dominance of raising guards over stores, branch-outcome facts for k=0 protection (followed through derived work lists), collection-provenance of commit loops, handler tables of eval sites')
+TECHNIQUE = ('static analysis on flattened functions: linear-form normalisation of all horizon bounds with temporaries resolved, dominance of raising guards over stores, branch-outcome facts for k=0 protection (followed through derived work lists), collection-provenance of commit loops, handler tables of eval sites; alias analysis of the series accessors (shared with C16.R2); registration-order lint')
 EXPLANATION = (
     'Every bound that mentions the horizon in the initial-condition and solve functions is normalised to a linear form and '
     'must equal MaxTime+1; the short-series test must dominate the truncating store; commit loops append exactly once per '
